@@ -27,8 +27,8 @@ MANIFEST = dict(
           "sign*(d + m/60 + s/3600) = x exactly; after the rounding/carry chain m < 60, s < 60, d < 360 and the "
           "fields recombine modulo 360 to x with its seconds rounded half-even at decimal n (exactly for n <= 10, "
           "within 1e-10 arcsec beyond, where the 1e-10 carry threshold acts); the value handed to the formatter carries "
-          "the sign on exactly the leading non-zero field. For RA the hour field can reach 24 (counterexample proved; "
-          "listed finding). str.format/repr are not modelled: the printed strings are parsed by a strict grammar and "
+          "the sign on exactly the leading non-zero field. For RA the printed value reads back to value/15 rounded at n "
+          "(no modulus needed) but the hour field can reach 24 (counterexample proved; listed finding). str.format/repr are not modelled: the printed strings are parsed by a strict grammar and "
           "the predicates (no 60 field, sign once on the leading non-zero field, read-back = rounded value mod 360 / "
           "24 h, at most n decimals) are evaluated on the implementation's strings over values within 1e-12 of whole "
           "seconds/minutes/degrees, 0 and 360, n_dec -1..12, both styles, angle and RA. round(x, n) is a stub "
@@ -322,7 +322,7 @@ def generate(ctx, shard=0, nshards=1):
         ctx.sample({'call': "Angle(23, 59, 59.99999).dms_str(n_dec=2)", 'expected': "24d 0' 0.0''"})
         ctx.sample({'call': "Angle(-0.0001).dms_str(False, 2)", 'expected': '0:0:-0.36'})
         ctx.sample({'call': 'Angle(1.1).dms_tuple()', 'expected': '(1, 6, ~3e-13, 1.0)'})
-    n = ctx.n(1200000, 9600000) // nshards
+    n = min(ctx.n(1200000, 9600000), 12000000) // nshards      # capped: the failing-input search multiplies the scale
     for s in gen_specs(ctx, n):
         run_spec(ctx, s)
 
